@@ -460,6 +460,18 @@ class VariableWithCostDict(Variable):
             self.name, self.domain, self._costs, initial_value=self.initial_value
         )
 
+    @classmethod
+    def _from_repr(cls, r):
+        v = super()._from_repr(r)
+        # Once serialized (e.g. to json), the keys of the costs dict are strings,
+        # whatever the type of the domain's values: map them back to the values.
+        by_str = {str(d): d for d in v.domain}
+        v._costs = {
+            (by_str[k] if k not in v.domain and k in by_str else k): c
+            for k, c in v._costs.items()
+        }
+        return v
+
 
 class VariableWithCostFunc(Variable):
     has_cost = True
